@@ -56,7 +56,7 @@ func partialOracle(pc *gen.PayloadCase, ss *gen.SchemaSpec, full jsonapi.Resourc
 			return
 		}
 
-		schemaType := ss.Schema.GetType(ts.Name)
+		schemaType, _ := typeNamed(ss.Schema, ts.Name)
 
 		for _, n := range wantAttrs {
 			a, _ := ts.Attr(n)
